@@ -191,7 +191,9 @@ def tlc_behaviours(bdir, tier):
         ex.insert(len(ex) - 1, "expect 0 %s %d" % (",".join(str(x) for x in b["avail"]) or "-", 1 if b["complete"] else 0))
         execs.append(ex)
     if not execs:
-        raise vlib.Infra("LdpcItGen produced no behaviour:\n" + out[-1500:])
+        if "Error" in out:
+            raise vlib.Infra("LdpcItGen failed:\n" + out[-1500:])
+        vlib.log("note: LdpcItGen produced no behaviour within its time budget")
     return execs
 
 
@@ -237,7 +239,9 @@ def api_behaviours(bdir, tier, rng):
         ex.append("release %d" % s)
         execs.append(ex)
     if not execs:
-        raise vlib.Infra("ApiModel generated no behaviour:\n" + out[-1500:])
+        if "Error" in out:
+            raise vlib.Infra("ApiModel generation failed:\n" + out[-1500:])
+        vlib.log("note: ApiModel generated no behaviour within its time budget")
     return execs
 
 
